@@ -2659,6 +2659,13 @@ class Mailbox:
                 (time.monotonic() - start_time),
             )
             try:
+                # An empty mailbox: there is nothing a message set could name.
+                # (Only a UID command can get here; UIDs that do not exist are
+                # silently ignored.)
+                #
+                if not self.msg_keys:
+                    return [], []
+
                 max_msg_key = self.msg_keys[-1]
                 uid_vv, uid_max = self.get_uid_from_msg(max_msg_key)
                 if uid_vv is None or uid_vv != self.uid_vv or uid_max is None:
